@@ -133,3 +133,47 @@ func TestC13EmptyKeyValueRejected(t *testing.T) {
 		esk = o.LastEvaluatedKey
 	}
 }
+
+// C13: an ExclusiveStartKey is a key of a request too: lacking a key attribute, giving it another type, or lacking
+// the index key on a read through an index is a validation error, not a silent restart from the beginning.
+func TestC13MalformedStartKeyRejected(t *testing.T) {
+	ctx := context.Background()
+	c := v2.NewClient()
+	if err := v2.AddTable(ctx, c, "tbl", "h", "r"); err != nil {
+		t.Fatal(err)
+	}
+	if err := v2.AddIndex(ctx, c, "tbl", "idx", "g", ""); err != nil {
+		t.Fatal(err)
+	}
+	tbl, idx := "tbl", "idx"
+	S := func(v string) v2types.AttributeValue { return &v2types.AttributeValueMemberS{Value: v} }
+	N := func(v string) v2types.AttributeValue { return &v2types.AttributeValueMemberN{Value: v} }
+	for _, k := range []string{"1", "2", "3"} {
+		if _, err := c.PutItem(ctx, &dynamodb.PutItemInput{TableName: &tbl, Item: map[string]v2types.AttributeValue{"h": S("a"), "r": S(k), "g": S("x")}}); err != nil {
+			t.Fatal(err)
+		}
+	}
+	bad := []map[string]v2types.AttributeValue{
+		{"h": S("a")},               // range attribute missing
+		{"h": S("a"), "r": N("1")},  // wrong type
+		{"zz": S("a"), "r": S("1")}, // hash attribute missing
+	}
+	for _, sk := range bad {
+		if _, err := c.Scan(ctx, &dynamodb.ScanInput{TableName: &tbl, ExclusiveStartKey: sk}); err == nil {
+			t.Errorf("Scan accepted the ExclusiveStartKey %v", sk)
+		}
+	}
+	// a read through the index needs the index key as well
+	if _, err := c.Scan(ctx, &dynamodb.ScanInput{TableName: &tbl, IndexName: &idx, ExclusiveStartKey: map[string]v2types.AttributeValue{"h": S("a"), "r": S("1")}}); err == nil {
+		t.Errorf("index Scan accepted an ExclusiveStartKey without the index key")
+	}
+	// well-formed keys still work, also when nothing is stored under them
+	o, err := c.Scan(ctx, &dynamodb.ScanInput{TableName: &tbl, ExclusiveStartKey: map[string]v2types.AttributeValue{"h": S("a"), "r": S("15")}})
+	if err != nil || len(o.Items) != 2 {
+		t.Errorf("resume after the absent key (a, 15): err=%v, %d items, want 2", err, len(o.Items))
+	}
+	o, err = c.Scan(ctx, &dynamodb.ScanInput{TableName: &tbl, IndexName: &idx, ExclusiveStartKey: map[string]v2types.AttributeValue{"h": S("a"), "r": S("1"), "g": S("x")}})
+	if err != nil || len(o.Items) != 2 {
+		t.Errorf("index resume after (a, 1): err=%v, %d items, want 2", err, len(o.Items))
+	}
+}
